@@ -6,12 +6,13 @@
 (*   [p  parent node (0 = first action of a behaviour),                    *)
 (*    fc, nc  its children are the nodes fc .. fc+nc-1,                    *)
 (*    a  "d" user draw | "s" user seed | "c" call,                         *)
-(*    r, op, k  routine, operator and key of a call (integers),            *)
+(*    s  the SLOT of a call: identity of its (routine, operator, key)      *)
+(*       triple, interned to 1, 2, ... (0 for user actions),               *)
 (*    g0, g1  identity of np.random.get_state() before / after the action, *)
-(*    o  identity of the bytes returned by the call (0 for user actions),  *)
-(*    c  for a call: the node the harness names as the canonical (first    *)
-(*       recorded) call of the same (routine, operator, key); 0 otherwise] *)
+(*    o  identity of the bytes returned by the call (0 for user actions)]. *)
 (* Identities are SHA-256 digests interned to small integers (injective).  *)
+(* The last line of the file is not a node but the harness's claim         *)
+(*   [canon |-> <<o_1, o_2, ...>>]   the output of slot 1, 2, ...          *)
 (* Behaviours of the base mode share prefixes (a tree per operator; the    *)
 (* harness restores the global state between siblings); behaviours of the  *)
 (* variant modes (calls on the float32 / float64 / complex64 / complex128  *)
@@ -31,45 +32,38 @@
 (*         earlier call ON THIS PATH, whatever came in between (calls on   *)
 (*         other dtypes / shapes / keys included)   (clause determinism),  *)
 (*   okf   ... and against the calls of every OTHER recorded history: the  *)
-(*         output equals that of the canonical node of its slot.  The      *)
-(*         pointer c is the harness's claim; it is validated here (the     *)
-(*         canonical node is a call of the same slot that points to        *)
-(*         itself; CanonUnique: no two canonical nodes share a slot), so   *)
-(*         all accepted calls of a slot carry one and the same output.     *)
-(* out is indexed by the full slot <<r, op, k>>: calls that differ in      *)
-(* routine, operator or key are never compared (not forced equal).         *)
+(*         output is the one claimed for its slot (canon).  Whatever the   *)
+(*         harness claims, all ACCEPTED calls of a slot carry one and the  *)
+(*         same output, in whichever history they occur.                   *)
+(* out and canon are indexed by the slot, i.e. by the full triple          *)
+(* (routine, operator, key): calls that differ in routine, operator (the   *)
+(* float32 and the float64 version of a matrix are different operators) or *)
+(* key are never compared (not forced equal).                              *)
 (* A rejected event does not stop the walk (g, out continue from the       *)
 (* recorded values) so that every event gets a verdict.                    *)
 (***************************************************************************)
-EXTENDS Integers, Sequences, FiniteSets, Json, TLC, IOUtils
+EXTENDS Integers, Sequences, Json, TLC, IOUtils
 
-Nodes == ndJsonDeserialize(IOEnv.TRACE_FILE)
-N == Len(Nodes)
+Lines == ndJsonDeserialize(IOEnv.TRACE_FILE)
+N == Len(Lines) - 1
+Nodes == Lines                     \* nodes 1..N; line N+1 is the claim
+Canon == Lines[N + 1].canon
 
 VARIABLES l, g, out, v
 
-Slot(e) == <<e.r, e.op, e.k>>
-NoOut == (<<0, 0, 0>> :> 0)        \* no call seen yet (slot <<0, 0, 0>> is not a call)
-Seen(o, e) == Slot(e) \in DOMAIN o
+NoOut == (0 :> 0)                  \* no call seen yet (slot 0 is not a call)
+Seen(o, e) == e.s \in DOMAIN o
 BootG == Nodes[1].g0
-
-CanonNodes == {i \in 1..N: Nodes[i].a = "c" /\ Nodes[i].c = i}
-CanonUnique == Cardinality({Slot(Nodes[i]): i \in CanonNodes}) = Cardinality(CanonNodes)
-ASSUME CanonUnique
-
-CanonOk(e) ==
-    /\ e.c \in 1..N
-    /\ LET c == Nodes[e.c] IN c.a = "c" /\ Slot(c) = Slot(e) /\ c.c = e.c /\ c.o = e.o
 
 Judge(e, gpre, opre) ==
     [cont |-> e.g0 = gpre,
      sane |-> (e.a = "d") => (e.g1 # e.g0),
      okg  |-> (e.a = "c") => (e.g1 = e.g0),
-     okd  |-> (e.a = "c") => (~Seen(opre, e) \/ e.o = opre[Slot(e)]),
-     okf  |-> (e.a = "c") => CanonOk(e)]
+     okd  |-> (e.a = "c") => (~Seen(opre, e) \/ e.o = opre[e.s]),
+     okf  |-> (e.a = "c") => (e.s \in 1..Len(Canon) /\ e.o = Canon[e.s])]
 
 Remember(e, opre) ==
-    IF e.a = "c" /\ ~Seen(opre, e) THEN (Slot(e) :> e.o) @@ opre ELSE opre
+    IF e.a = "c" /\ ~Seen(opre, e) THEN (e.s :> e.o) @@ opre ELSE opre
 
 Enter(i, gpre, opre) ==
     LET e == Nodes[i] IN
